@@ -175,6 +175,7 @@ CHECKS["C17"] = {
     "parts": [A("handlers", "./checks/c17", "TestC17Handlers", budget={"quick": 60, "thorough": 300}),
               A("mutations", "./checks/c17", "TestC17Mutations", budget={"quick": 60, "thorough": 300}),
               A("e2e", "./checks/c17", "TestC17EndToEnd", budget={"quick": 60, "thorough": 300}),
+              A("stamps", "./checks/c17", "TestC17Stamps", budget={"quick": 60, "thorough": 120}),
               A("concurrent", "./checks/c17", "TestC17Concurrent", race=True, sampling=True, nshards=1, budget={"quick": 60, "thorough": 120})],
 }
 CHECKS["C20"] = {
@@ -215,6 +216,7 @@ CHECKS["C03"] = {
               A("noauth", "./checks/c03", "TestC03NoAuth", nshards=1, budget={"quick": 60, "thorough": 60}),
               A("two-servers", "./checks/c03", "TestC03TwoServers", nshards=1, budget={"quick": 60, "thorough": 60}),
               A("unsigned", "./checks/c03", "TestC03Unsigned", nshards=1, budget={"quick": 60, "thorough": 60}),
+              A("rotation", "./checks/c03", "TestC03Rotation", nshards=2, budget={"quick": 60, "thorough": 60}),
               A("tcp", "./checks/c03", "TestC03TCP", nshards=2, budget={"quick": 60, "thorough": 60})],
 }
 
@@ -368,7 +370,8 @@ _ADD = {
            "permission timer; a Refresh of an entry at the instant its timer fires (both directions); a peer datagram (UDP allocation) or peer connection (TCP allocation) during the slow Deleted callback of a "
            "neighbouring permission / channel whose own deadline has passed: nothing is relayed or announced for the run-out entry.",
     "C03": " Every truncation of a fresh nonce text is refused. Part two-servers: two turn.Server instances of one process, a nonce minted by one presented to the other is refused (438), each accepts its own; "
-           "states own-anon (the auth handler reports an empty user id) and other-user-case (accounts differing in letter case only).",
+           "states own-anon (the auth handler reports an empty user id) and other-user-case (accounts differing in letter case only). Part rotation: after Allocate + CreatePermission + ChannelBind the operator changes the account's password or removes the account "
+           "(at once, after 1 min, after 59 min; owner with a user id and with the empty user id): every method signed with the key that was valid before is refused, count and probe sweep unchanged, and succeeds with the new key.",
     "C09": " Parts client-states / client-lifetimes / client-sched: the server's inbound messages in every state of the client's relayed socket (open, bound, closed, closed twice, re-allocated, TCP listener closed), "
            "Allocate success responses granting LIFETIME {0,1,2,3,600,2^32-1}, and (Engine B, K13) a ConnectionAttempt racing TCPAllocation.Close: the client survives and completes a transaction afterwards.",
     "C10": " Empty reads are also combined with byte-at-a-time delivery (more than 100 empty reads within one frame): same frames, no error.",
@@ -377,7 +380,7 @@ _ADD = {
            "(no timer re-armed on the closed allocation); a Connect dial completing at the instant of Server.Close (IdleTies: peer connection closed, no bind timer left); in part vtx Server.Close with every UDP relay socket "
            "refusing its first Close: the server still tries to close each of them.",
     "C16": " Also (Engine B): an inbound peer connection accepted at the relayed address while the client deletes the allocation and allocates again on the same 5-tuple: an id announced late is not bindable under the second allocation.",
-    "C17": " Handlers are also built at a fractional instant of the clock; a REST-format credential is presented to the plain handler (and the reverse) and must not authenticate; granted transaction ids are replayed and forged end to end.",
+    "C17": " Handlers are also built at a fractional instant of the clock; a REST-format credential is presented to the plain handler (and the reverse) and must not authenticate; granted transaction ids are replayed and forged end to end. Part stamps: usernames written with the reference for 70+ expiry stamps across the whole int64 range (powers of two, both signs, stamps whose distance from now is just inside / outside what a time.Duration holds, 2^63-1, -2^63) and the library's generators called with durations -2^63, -2^63+1, 2^63-2, 2^63-1 ns, each with its genuine password at three instants: ok <=> now.Unix() <= stamp.",
     "C18": " S16: the Connect dial of S15 completes at the very instant Server.Close is called (scheduler option IdleTies: both sleepers of that instant are enabled together).",
     "C20": " Listening addresses are given as IP literals and as host names (simnet resolver: relay.test, relay6.test).",
 }
